@@ -20,11 +20,11 @@ passed = set(x.replace(" ", "::", 1) for x in re.findall(r"^\s+PASS \[[^\]]*\] \
 result["suite_passed"] = len(passed)
 result["suite_missing_from_baseline"] = sorted(baseline - passed)[:10]
 result["suite_ok"] = baseline <= passed
-demo_with = sh(f"sh SEEDED/{n}/run_demo.sh 2>&1")
+demo_with = sh(f"bash SEEDED/{n}/run_demo.sh 2>&1")
 result["demo_exit_with_patch"] = demo_with.returncode
 result["demo_tail_with_patch"] = demo_with.stdout[-600:]
 clean()
-demo_without = sh(f"sh SEEDED/{n}/run_demo.sh 2>&1")
+demo_without = sh(f"bash SEEDED/{n}/run_demo.sh 2>&1")
 result["demo_exit_without_patch"] = demo_without.returncode
 clean()
 result["confirmed"] = bool(result["patch_applies"] and result["suite_ok"] and demo_with.returncode != 0 and demo_without.returncode == 0)
